@@ -1037,6 +1037,8 @@ class Lower:
             raise LowerError("unique_ptr " + name)
         if cls == 'handle' and name == 'operator=' and t.name in ('lzma_stream', 'z_stream', 'z_stream_s'):
             return '%s = %s' % (self.ex(a0), self.ex(args[1]))        # implicit copy assignment of a C struct (lzma_stream)
+        if cls == 'handle' and t.name in ('std::_Ios_Openmode', 'std::ios_base::openmode') and name in ('operator|', 'operator&') and len(args) == 2:
+            return '(%s %s %s)' % (self.ex(a0), name[-1], self.ex(args[1]))     # std::ios_base::openmode is a bitmask type
         if cls == 'handle':
             # iterators and other opaque library values
             hn = re.sub(r'[^A-Za-z0-9]', '_', self.types.ctype(t).replace('struct ', '').replace(' *', '_p'))
